@@ -508,9 +508,12 @@ class SimRunner:
 
     def get_output_for(self, time: Time) -> OutputData:
         assert self.outputs is not None
-        for data_time, value in reversed(self.outputs.items()):
-            if data_time <= time:
-                return value
+        # The newest entry at or before ``time``. (The entries are not
+        # necessarily inserted in the order of their times, e.g. initial
+        # data for several time shifts.)
+        data_time = max((t for t in self.outputs if t <= time), default=None)
+        if data_time is not None:
+            return self.outputs[data_time]
 
         return {}
 
